@@ -259,7 +259,7 @@ func c07Q1(r *Run, rep *core.Report, mm *core.MapModel) {
 					continue
 				}
 				for _, v := range flattenPhi(e, l, 0) {
-					if !zeroLenSlice(v) {
+					if !zeroLenSlice(v) && !collectedFromEmpty(v) {
 						resetOK = false
 					}
 				}
@@ -296,6 +296,11 @@ func feedsAppend(phi *ssa.Phi) bool {
 				if walk(x, d+1) {
 					return true
 				}
+			case *ssa.Slice:
+				// entries[:0] handed on to the collecting code
+				if walk(x, d+1) {
+					return true
+				}
 			}
 		}
 		return false
@@ -321,6 +326,66 @@ func zeroLenSlice(v ssa.Value) bool {
 	return false
 }
 
+// collectedFromEmpty: the slice is what a collecting helper returns for this root bucket after having been handed a
+// zero-length reslice to append to (entries = snapshotBucket(&buckets[i], entries[:0])): nothing of an earlier bucket
+// is in it.
+func collectedFromEmpty(v ssa.Value) bool {
+	c, ok := v.(*ssa.Call)
+	if !ok {
+		return false
+	}
+	cal := core.Callee(c)
+	if cal == nil || cal.Blocks == nil {
+		return false
+	}
+	for i, a := range c.Call.Args {
+		if !zeroLenSlice(a) || i >= len(cal.Params) {
+			continue
+		}
+		// every return of the helper is the parameter itself or appends to it
+		okAll, n := true, 0
+		visiting := map[ssa.Value]bool{}
+		var derives func(x ssa.Value, d int) bool
+		derives = func(x ssa.Value, d int) bool {
+			if d > 24 {
+				return false
+			}
+			switch y := x.(type) {
+			case *ssa.Parameter:
+				return y == cal.Params[i]
+			case *ssa.Phi:
+				if visiting[y] {
+					return true // a loop-carried slice: judged by its other operands
+				}
+				visiting[y] = true
+				for _, e := range y.Edges {
+					if e != ssa.Value(y) && !derives(e, d+1) {
+						return false
+					}
+				}
+				return true
+			case *ssa.Call:
+				if core.IsBuiltinCall(y) == "append" {
+					return derives(y.Call.Args[0], d+1)
+				}
+			}
+			return false
+		}
+		core.Instrs(cal, func(in ssa.Instruction) {
+			if ret, isRet := in.(*ssa.Return); isRet && len(ret.Results) == 1 {
+				n++
+				if !derives(ret.Results[0], 0) {
+					okAll = false
+				}
+			}
+		})
+		if okAll && n > 0 {
+			return true
+		}
+	}
+	return false
+}
+
 // derivesFromIndexed: the value is read (through field loads, helper calls, conversions) from an element
 // addressed by an IndexAddr into a slice.
 func derivesFromIndexed(v ssa.Value, depth int) bool {
@@ -336,6 +401,13 @@ func derivesFromIndexed(v ssa.Value, depth int) bool {
 		return derivesFromIndexed(x.X, depth+1)
 	case *ssa.FieldAddr:
 		return derivesFromIndexed(x.X, depth+1)
+	case *ssa.Field:
+		return derivesFromIndexed(x.X, depth+1) // e := entries[j]; e.key
+	case *ssa.Alloc:
+		// a local copy of one collected element (e := entries[j])
+		if st := uniqueStore(x); st != nil {
+			return derivesFromIndexed(st.Val, depth+1)
+		}
 	case *ssa.Call:
 		if len(x.Call.Args) == 1 {
 			return derivesFromIndexed(x.Call.Args[0], depth+1)
